@@ -64,7 +64,7 @@ func (t TableRef) ast() ast.TableReference {
 func (t TableRef) feat(where string) []string {
 	var f []string
 	if t.Sub != nil {
-		f = append(f, where+".derived")
+		f = append(f, where+".derived", "expr.subquery-body:"+t.Sub.Kind)
 		f = append(f, t.Sub.Feat...)
 	}
 	if t.Schema != "" {
@@ -345,6 +345,9 @@ func (s Sel) Build() S {
 					jc.Condition = &ast.ListExpression{Values: ids}
 				}
 				fs = append(fs, []string{"select.join.using"})
+				if len(j.Using) > 1 {
+					fs = append(fs, []string{"select.join.using.multi"})
+				}
 			}
 			n.Joins = append(n.Joins, jc)
 		}
